@@ -71,7 +71,8 @@ def run(name, pids, tier="quick"):
             t0 = time.time()
             rc, out = sh(f"./check {pid} --tier {tier}", cwd=VERIF, timeout=3600)
             viol = [l for l in out.splitlines() if l.startswith("VIOLATION")]
-            results[pid] = {"rc": rc, "violations": viol[:2], "wall": round(time.time() - t0, 1)}
+            results[pid] = {"rc": rc, "violations": viol[:2], "wall": round(time.time() - t0, 1),
+                            "with_input": any(not l.rstrip().endswith("no-failing-input-found") for l in viol)}
     finally:
         sh(f"git -C {REPO} checkout -- .")
     print(name, json.dumps(results))
@@ -87,6 +88,8 @@ if __name__ == "__main__":
         tier = sys.argv[2] if len(sys.argv) > 2 else "quick"
         out = {}
         for name in sorted(os.listdir(os.path.join(VERIF, "seeded"))):
+            if not os.path.isdir(os.path.join(VERIF, "seeded", name)):
+                continue
             meta = json.load(open(os.path.join(VERIF, "seeded", name, "meta.json")))
             pid = meta["property"]
             if meta.get("obsolete"):
